@@ -252,6 +252,11 @@ def make_cli_case(rng, profile=None, n_err=None, n_warn=None, allow_stdin=True, 
     if n_warn is None:
         n_warn = rng.choice([0, 0, 1, 1, 2, 3])
     plant(rng, prog, n_err, n_warn)
+    return finish_cli_case(rng, prog, allow_stdin=allow_stdin, want_outputs=want_outputs)
+
+
+def finish_cli_case(rng, prog, allow_stdin=True, want_outputs=None):
+    """argv, disk layout and expected outputs for an already generated program."""
     charset = rng.choice(CHARSETS) if rng.random() < 0.4 else "bk"
     prog.charset = charset
 
